@@ -23,6 +23,8 @@ def _plain(v: AV) -> Any:
         return tuple(_plain(x) for x in v.items)
     if isinstance(v, PyList):
         return [_plain(x) for x in v.items]
+    if isinstance(v, PyDict):
+        return {_plain(v.keys_av[k]): _plain(x) for k, x in v.items.items()}
     raise ValueError
 
 
@@ -69,6 +71,8 @@ def call_external(h: Any, name: str, args: List[AV], kwargs: Dict[str, AV], node
         return h.to_str(args[0], False, node)
     if short == "repr":
         return h.to_str(args[0], True, node)
+    if short == "format" and len(args) == 1 and not kwargs:
+        return h.to_str(args[0], False, node)  # format(x) == str(x) for the value kinds modelled
     if short == "ascii":
         r = h.to_str(args[0], True, node)
         if isinstance(r, Const) and isinstance(r.value, str):
@@ -783,6 +787,10 @@ def call_method(h: Any, recv: AV, name: str, args: List[AV], kwargs: Dict[str, A
         ctx.atom_info[("truth", "term", t.id)] = {"kind": "regex", "mode": name, "pattern": recv.args[0] if recv.args else None, "subject": args[0] if args else None, "pos": args[1] if len(args) > 1 else None}
         return t
     if isinstance(recv, Term) and recv.op in ("strmeth", "concat", "fstr", "str", "repr", "ascii", "join", "json.dumps", "strslice", "canonical"):
+        if name in ("startswith", "endswith") or name in STR_PREDICATES:
+            key = ("strpred", name, recv.id, repr(args))
+            ctx.atom_info[key] = {"kind": "strpred", "name": name, "recv": recv, "args": list(args)}
+            return Const(ctx.choose(key, [False, True]))
         return Term("strmeth", (recv, name, tuple(args)), ctx.new_id())
     if isinstance(recv, (Opaque, Term)):
         return h.opaque_call(recv, name, args, kwargs, node)
